@@ -153,12 +153,38 @@ func runC08(r *Run) {
 	}
 	inflight := g.pickInflight(estA)
 	drop := t.Chance(20, "final-drop")
-	r.Mixf("C08 %s prefix=%d est=%d baseline=%d final rtt %d vs %d inflight=%d drop=%v", cfg, nPrefix, estA, baseA, lo, hi, inflight, drop)
-	if p := safeSample(a.Lim, Sample{RTT: lo, InFlight: inflight, Drop: drop}); p != nil {
+	// the start time of the final sample: none, right after the history, or after a quiet period chosen so that
+	// a round duration since the last completion ends between the two completions of the pair
+	var start int64
+	if len(hist) > 0 && t.Chance(25, "final-start-time") {
+		lastEnd := int64(0)
+		for _, h := range hist {
+			if e := h.Start + h.RTT; e > lastEnd {
+				lastEnd = e
+			}
+		}
+		start = lastEnd + int64(t.Intn(1000000, "final-gap"))
+		if t.Chance(50, "quiet-gap-pair") {
+			c := []int64{1e9, 6e10, 36e11, 864e11}[t.Intn(4, "quiet-gap")]
+			w := hi - lo
+			if w > 1000 {
+				w = 1000
+			}
+			if st := lastEnd + c - lo - int64(t.Intn(int(w), "quiet-gap-k")); st > 0 && st < 1<<61 {
+				start = st
+				r.Probe("pair_straddles_quiet_period")
+			}
+		}
+		if start+hi < 0 {
+			start = 0
+		}
+	}
+	r.Mixf("C08 %s prefix=%d est=%d baseline=%d final rtt %d vs %d inflight=%d drop=%v start=%d", cfg, nPrefix, estA, baseA, lo, hi, inflight, drop, start)
+	if p := safeSample(a.Lim, Sample{Start: start, RTT: lo, InFlight: inflight, Drop: drop}); p != nil {
 		r.Fail("panic", algoKey(a, "OnSample"), "OnSample panicked: %v", p)
 		return
 	}
-	if p := safeSample(b.Lim, Sample{RTT: hi, InFlight: inflight, Drop: drop}); p != nil {
+	if p := safeSample(b.Lim, Sample{Start: start, RTT: hi, InFlight: inflight, Drop: drop}); p != nil {
 		r.Fail("panic", algoKey(a, "OnSample"), "OnSample panicked: %v", p)
 		return
 	}
